@@ -249,7 +249,6 @@ where
 /*@*/         final(vf).wf(), final(vf).offset == vstd::prelude::old(vf).offset, final(vb).wf(), final(vb).offset == vstd::prelude::old(vb).offset,
 /*@*/     decreases (old_range.end - old_range.start) + (new_range.end - new_range.start),
 {
-    /*@*/ hide(seg_eqs); hide(lcs_len);   // C03 bookkeeping goes through lemmas only (keeps the query small)
     /*@*/ broadcast use {axiom_pure_index, axiom_pure_eq};
     /*@*/ let ghost rel = rel_of(old, new); let ghost lvl = alg_lvl(deadline);
     /*@*/ let ghost o0 = old_range.start as int; let ghost n0 = new_range.start as int;
